@@ -101,13 +101,21 @@ type qImpl struct {
 
 func jobNameOf(id int64) string { return fmt.Sprintf("job%d", id) }
 
-func (im *qImpl) boot() {
+func (im *qImpl) boot() { im.bootStandby(nil) }
+
+// bootStandby is boot with a standby phase: the process is constructed (NewStore, as the
+// controller manager does for every replica), then waits for leader election while the
+// informers run and another leader works (standby), and only then recovers its stores.
+func (im *qImpl) bootStandby(standby func()) {
 	// (re)start: fresh handlers, store recovered from the cache, controllers initialised
 	im.sc.informers.Jobs.handlers = nil
 	im.sc.ResetStores()
 	st, err := activejobstore.NewStore(im.sc)
 	if err != nil {
 		panic(err)
+	}
+	if standby != nil {
+		standby()
 	}
 	if err := st.Recover(context.Background()); err != nil {
 		panic(err)
@@ -452,6 +460,40 @@ func runQueue(ctx *RunCtx) *Result {
 				}
 				return n
 			}
+			standby := ""
+			if c.Chance(1, 2) {
+				// this replica was a standby first: constructed, informers running, another leader
+				// started and finished a Job of the JobConfig; then this replica is elected and
+				// recovers. The recovered counter must be the number of active Jobs.
+				settleQ()
+				sid := nextID
+				nextID++
+				im.bootStandby(func() {
+					rj := &execution.Job{ObjectMeta: metav1.ObjectMeta{Namespace: "ns", Name: jobNameOf(sid), UID: types.UID(fmt.Sprintf("job-uid-%d", sid)),
+						CreationTimestamp: metav1.NewTime(time.Unix(created+1, 0).UTC()),
+						Labels:            map[string]string{jobconfig.LabelKeyJobConfigUID: jcUID}}}
+					tr := true
+					rj.OwnerReferences = []metav1.OwnerReference{{APIVersion: "execution.furiko.io/v1alpha1", Kind: "JobConfig", Name: jcName, UID: types.UID(jcUID), Controller: &tr, BlockOwnerDeletion: &tr}}
+					rj.Spec.StartPolicy = &execution.StartPolicySpec{ConcurrencyPolicy: execution.ConcurrencyPolicyAllow}
+					rj.Status.Phase = execution.JobRunning
+					rj.Status.StartTime = mtp(ip(im.api.now()))
+					im.api.storeJob(rj, true)
+					im.apply(qOp{Kind: "advcache", N: 1000})
+					im.sc.informers.Jobs.DeliverAll()
+					fin := rj.DeepCopy()
+					fin.Status.Phase = execution.JobSucceeded
+					im.api.storeJob(fin, false)
+					im.apply(qOp{Kind: "advcache", N: 1000})
+					im.sc.informers.Jobs.DeliverAll()
+				})
+				settleQ()
+				standby = fmt.Sprintf("standby replica: constructed; another leader starts and finishes job%d; elected, stores recovered; ", sid)
+				if cnt, act := im.store.CountActiveJobsForConfig(im.jc), trueActive(); cnt < act {
+					res.Hits = append(res.Hits, MonitorHit{"C05", "C05/recovered-count-wrong-after-standby",
+						fmt.Sprintf("after recovery the store counts %d active Jobs of the JobConfig, %d are started, unfinished and not being deleted", cnt, act),
+						map[string]interface{}{"now": now, "max": max, "ops": ops, "epilogue": standby}})
+				}
+			}
 			policy := "Allow"
 			if mx := im.jc.Spec.Concurrency.MaxConcurrency; mx != nil {
 				policy = Pick(c, []string{"Allow", "Enqueue", "Forbid"})
@@ -496,7 +538,7 @@ func runQueue(ctx *RunCtx) *Result {
 				im.apply(qOp{Kind: "sync"})
 			}
 			res.Count("epilogue-" + policy)
-			epi := map[string]interface{}{"now": now, "max": max, "ops": ops, "epilogue": fmt.Sprintf("fill to the limit; create job%d (%s) while the JobConfig cache lags; work the independent queue; JobConfig arrives; resync", id, policy)}
+			epi := map[string]interface{}{"now": now, "max": max, "ops": ops, "epilogue": standby + fmt.Sprintf("fill to the limit; create job%d (%s) while the JobConfig cache lags; work the independent queue; JobConfig arrives; resync", id, policy)}
 			rj := im.api.getJob(jobNameOf(id))
 			started := rj != nil && !rj.Status.StartTime.IsZero()
 			if policy == "Allow" && !started {
